@@ -85,6 +85,9 @@ class C10(EvalFamProp):
         if cfg.get('err') == 'HANG':
             return 'evaluation did not terminate'
         if case.get('ctxfam'):
+            keys = [sc_py(k) for k, _ in (case['docs'][0]['raw'].get('m', []) if case['docs'] else [])]
+            if 'alias' not in keys or 'worker' not in keys:
+                return None       # (shrunk) out of the family
             for what, r in (('as written', cfg), ('with permuted keys', io['perm']['cfg'])):
                 if 'ok' not in r:
                     return f'{what}: a node handed back by evaluated code must evaluate: ' + json.dumps({k: v for k, v in r.items() if k != "log"})[:160]
